@@ -106,6 +106,14 @@ check("C10", "model_checking",
       "Trusted: the fragment catalogue and oracles in checks/c10.py; output paths are compared case-insensitively. The flat src/ copy collision is a listed known finding.",
       "explicit-state BFS of the name selector + bounded-exhaustive project pairs with injectivity oracle", "DESIGN.md 5/C10")
 
+check("C15", "model_checking",
+      "Every field of the settings schema x value classes of its declared type (flags, numbers, strings incl. multi-line / ':' / '=', optionals, lists of 1-3 items, "
+      "key/value tables with the legacy separators, extra file types) written in the three configuration formats and evaluated by the real ford.load_settings + "
+      "ford.parse_arguments in-process: the three settings objects must be field-wise equal and equal a typed reference value; path options from three working directories; "
+      "thorough adds every pair of options. Further: every command-line flag x {md, toml} x 4 precedence layerings (file < --config < flag), unknown keys and ill-typed values x 3 formats.",
+      "Trusted: the reference values and format renderers in checks/c15.py. preprocess is pinned to false; wall-clock fields are not compared. Genuine defects (--config bypasses normalisation; TOML/--config values are not type-checked) are listed known findings.",
+      "exhaustive enumeration of the configuration schema x formats with cross-format differential and reference oracle", "DESIGN.md 5/C15")
+
 ALL = [f"C{i:02d}" for i in range(1, 21)]
 PENDING_REASON = "check not built yet in this round (planned: see DESIGN.md section 5); will be claimed once its exhaustive check exists"
 
